@@ -94,8 +94,8 @@ class ReindexAxis(Contract):
     def cases(self, tier):
         for rank in (1, 2):
             for d in range(rank):
-                for lk in ("f", "O"):
-                    if DIM_KINDS[d] != lk and rank == 2:
+                for lk in ("f", "O", "i"):
+                    if rank == 2 and not (DIM_KINDS[d] == lk or lk == "i" and d == 0):
                         continue
                     for given in ("ndarray", "Axis"):
                         for method in (None, "left", "right"):
@@ -116,7 +116,9 @@ class ReindexAxis(Contract):
         kinds = list(DIM_KINDS)
         kinds[case["d"]] = case["lk"]
         arr, labels, data = make_dimarray(S, case["rank"], kinds=kinds, data_kind=case["dk"], attrs={"units": "K"})
-        new = S.array1d("new", case["lk"])
+        # on an integer axis the new labels are of FLOAT kind (fractional labels are absent from an int axis and must be
+        # filled, never matched to a truncated label)
+        new = S.array1d("new", "f" if case["lk"] == "i" else case["lk"])
         given = new if case["given"] == "ndarray" else S.da.Axis(new, "x%d" % case["d"])
         kw = {}
         if case["method"]:
